@@ -182,6 +182,33 @@ def validate_chunk(work, chunk, invs, mods, flags, name, module="RelayTrace", cf
     return fails
 
 
+def l2_backpressure(work, tier):
+    n = 3000 if tier == "quick" else 9000
+    J = lambda c, sid, rid: dict(op="req", c=c, req=dict(k="Join", rid=rid, sid=sid, ts=rid))
+    ops = [dict(op="dial", c=1), dict(op="dial", c=2), dict(op="dial", c=3), J(1, 0, 1), dict(op="barrier", c=1), J(2, 1, 2), dict(op="barrier", c=2),
+           J(3, 1, 3), dict(op="barrier", c=3), dict(op="stall", c=2),
+           dict(op="aburst", c=1, n=n, req=dict(k="Custom", len=10000, dig=0, to=[], ts=9)),
+           dict(op="sleep", ms=1200), dict(op="unstall", c=2), dict(op="waitburst", c=1, ms=30000), dict(op="barrier", c=1, ms=20000), dict(op="barrier", c=2, ms=20000),
+           dict(op="barrier", c=3, ms=20000)]
+    sc = dict(sid="relay_backpressure", config=dict(mods=[], idle_ms=60000), ops=ops)
+    pin, pout = work.path("l2bp", "in.ndjson"), work.path("l2bp", "out.ndjson")
+    write_ndjson(pin, [sc])
+    work.run_harness(["l2", "-in", pin, "-out", pout], timeout=300)
+    r = read_ndjson(pout)[0]
+    fails = []
+    for c in ("2", "3"):
+        digs = [m["dig"] for m in r["clients"].get(c, []) if m["t"] == "CUSTOM_BROADCAST"]
+        # bodies are numbered by the sender; the harness maps a received body back to its number through the SHA-256 table
+        if digs != list(range(n)):
+            miss = sorted(set(range(n)) - set(digs))
+            fails.append(dict(hid="l2-relay_backpressure", sig=dict(inv="relay_exactly_once_wire", step="L2", kind="Custom", ret="-"),
+                              rec=dict(i=-1, recipient=int(c), received=len(digs), expected=n, first_missing=miss[:5],
+                                       duplicates=len(digs) - len(set(digs)), in_order=digs == sorted(digs)), scenario=sc))
+            break
+    work.log("wire level back-pressure: %d relays to a stalled recipient, %s" % (n, "all delivered once, in order" if not fails else "NOT all delivered"))
+    return fails
+
+
 def trace_stats(trace_files):
     """counts used for the vacuity gates and the evidence"""
     st = dict(histories=0, steps=0, kinds={}, refused=0, not_joined=0, relays=0, departures=0, departures_with_entities=0,
@@ -350,6 +377,12 @@ def run_relay_check(work, prop, tier, replay=None):
             fails.append(fr)
             if fr.get("scenario"):
                 hist_by_id[fr["hid"]] = dict(fr["scenario"], hid=fr["hid"], failing_outcome=fr["rec"])
+    if prop == "C02" and not replay:
+        # wire level: relays to a recipient whose connection is backed up must still arrive exactly once, in order
+        l2f = l2_backpressure(work, tier)
+        for f in l2f:
+            fails.append(f)
+            hist_by_id[f["hid"]] = f["scenario"]
     extra = None
     if prop == "C10" and not replay:
         import idgen_check
